@@ -79,6 +79,9 @@ def units(tier):
             for ie in (False, True):
                 for ea in (False, True):
                     us.append(("define[%s,%s,%s,%s]" % (what, local, ie, ea), "unit_define", dict(what=what, local=local, is_extern=ie, extern_all=ea)))
+    for ak in ("int", "poly-const"):
+        for local in (False, True):
+            us.append(("define[label,%s,%s]" % (local, ak), "unit_define", dict(what="label", local=local, is_extern=False, extern_all=False, addr_kind=ak)))
     for sp in (False, True):
         for dn in (False, True):
             us.append(("resolve[%s,%s]" % (sp, dn), "unit_resolve", dict(speculative=sp, digit_name=dn)))
